@@ -120,8 +120,8 @@ Definition in_F1 (p : list node) : bool := forallb f1_node p.
         evaluator substitutes with fuel 50: MacroLang.subst 50)                                        [fb_node n]
      "program text" (definitions with up to 9 parameters whose bodies are bodies as above - or arguments, when n = 0 -,
         calls whose arguments are arguments)                                                           [f2_node]       ---- *)
-(* tests of F2: those of F1 (switches are printed and modelled - streams - but not yet in the theorem's fragment) *)
-Definition f2_test (t : test) : bool := f1_test t.
+(* tests of F2: those of F1 and switches *)
+Definition f2_test (t : test) : bool := match t with TSwitch _ => true | _ => f1_test t end.
 
 Definition is_none {A} (o : option A) : bool := match o with None => true | Some _ => false end.
 (* optional arguments and their defaults: plain words (no bracket can hide in them) *)
@@ -134,7 +134,7 @@ Definition case_head (a : operand) (bs : list (list node)) : bool :=
 
 Fixpoint fa_node (x : node) : bool :=
   match x with
-  | NWord _ | NLet _ _ => true
+  | NWord _ | NLet _ _ | NNewSwitch _ | NSetSwitch _ _ => true
   | NGroup b => forallb fa_node b
   | NDef _ _ np d b => Nat.eqb np 0 && is_none d && forallb fa_node b
   | NCall _ o a => opt_ok o && forallb (forallb fa_node) a
@@ -145,7 +145,7 @@ Fixpoint fa_node (x : node) : bool :=
 
 Fixpoint fb_node (n : nat) (x : node) (d : nat) {struct x} : bool :=
   match x with
-  | NWord _ | NLet _ _ => true
+  | NWord _ | NLet _ _ | NNewSwitch _ | NSetSwitch _ _ => true
   | NParam k => Nat.leb 1 k && Nat.leb k n
   | NGroup b => match d with O => false | S d' => forallb (fun y => fb_node n y d') b end
   | NDef _ _ np dflt b =>
@@ -172,7 +172,7 @@ Definition BODY_DEPTH : nat := 49.      (* MacroLang.subst is called with fuel 5
 
 Fixpoint f2_node (x : node) : bool :=
   match x with
-  | NWord _ | NLet _ _ => true
+  | NWord _ | NLet _ _ | NNewSwitch _ | NSetSwitch _ _ => true
   | NGroup b => forallb f2_node b
   | NDef g _ np d b =>
       match d with
